@@ -207,6 +207,16 @@ def abacoBias (o : GOpts) : Int := if o.bias then (if o.sign < 0 then -24904 els
 def groupMk (o : GOpts) (first i : Nat) : Option (Params × St) :=
   mk 16 (if o.rescale then 4 else 0) o.unwrap (abacoBias o) o.reset o.sign (o.inv.contains (first + i))
 
+/-! ### The unwrappers as a ROACH device wires them (`RoachDevice.samplePacket`)
+
+14 fraction bits, 2 dropped, always enabled, reset after 20000 samples, never inverted; the bias level of
+`calcBiasLevel` (±0.38·2^16, in units where 2^16 is one ϕ0) rescaled to the ROACH quantum 2^14. -/
+def roachBias (bias : Bool) (sign : Int) : Int :=
+  (if bias then (if sign < 0 then -24904 else 24904) else 0) >>> 2
+
+def roachMk (bias : Bool) (sign : Int) : Option (Params × St) :=
+  mk 14 2 true (roachBias bias sign) 20000 sign false
+
 /-- a payload word as the 16-bit sample `demuxData` stores: `RawType(d[j])` for 16-bit payloads,
 `RawType(d[j] / 0x10000)` (Go's truncating division) for 32-bit ones -/
 def sample16 (wide : Bool) (v : Int) : Nat :=
@@ -278,6 +288,21 @@ def runLine (ts : List String) : Verdict :=
     (match P.run parseG ts with
      | .error e => .bad e
      | .ok c => judgeG c)
+  | "roach" :: rest =>
+    -- one channel of a real `RoachDevice`: the calls are the device's data blocks (100 ms bundles of UDP packets)
+    let pr : P (Bool × Int × List (List Nat) × List (List Nat)) := do
+      P.kw "biasopt"; let b ← P.bool
+      P.kw "sign"; let sg ← P.int
+      P.kw "calls"; let calls ← P.list (P.list P.nat)
+      P.kw "OUT"; let outs ← P.list (P.list P.nat)
+      pure (b, sg, calls, outs)
+    (match P.run pr rest with
+     | .error e => .bad e
+     | .ok (b, sg, calls, outs) =>
+       match judge { fb := 14, drop := 2, enable := true, bias := roachBias b sg, reset := 20000, sign := sg,
+                     invert := false, calls, outs } with
+       | .ok tags => .ok (tags ++ ["roach"] ++ (if calls.length > 1 then ["roach-multiblock"] else []))
+       | v => v)
   | _ =>
   match P.run parse ts with
   | .error e => .bad e
